@@ -390,7 +390,25 @@ class Gen:
                 vt, tag, dep = self.field_type(fi, t, for_map_value=True)
                 self.note_import(fi, dep)
                 n = fname()
-                out.append(self.comment(pad + "  ") + "%s  map<%s, %s> %s = %d%s;%s" % (pad, kt, vt, n, fnum(), opts(n), self.trailing()))
+                line = self.comment(pad + "  ") + "%s  map<%s, %s> %s = %d%s;%s" % (pad, kt, vt, n, fnum(), opts(n), self.trailing())
+                # a sibling map whose entry name ENDS with this map's entry name (x_foo -> XFooEntry / foo -> FooEntry),
+                # of another key and value type, before or after it
+                tw = rng.choice(["x_", "my_", "a_"]) + n
+                twpy, twjs = (self.naming.fld(tw) if self.naming else tw), self.json_name(tw)
+                if rng.random() < 0.3 and n.isidentifier() and tw not in used_names and twpy not in used_py and twjs not in used_json \
+                        and self.map_entry_name(tw) not in child_simple and self.map_entry_name(tw) not in {self.map_entry_name(x) for x in used_names}:
+                    used_names.add(tw)
+                    used_py.add(twpy)
+                    used_json.add(twjs)
+                    kt2 = rng.choice([k for k in MAP_KEYS if k != kt])
+                    vt2 = rng.choice([v for v in ("string", "bool", "double", "bytes", "sint32") if v != vt])
+                    twin = "%s  map<%s, %s> %s = %d;" % (pad, kt2, vt2, tw, fnum())
+                    out += [twin, line] if rng.random() < 0.6 else [line, twin]
+                    self.s.features["map_entry_suffix_twin"] += 1
+                    self.s.features["map"] += 1
+                    i += 1
+                else:
+                    out.append(line)
                 self.s.features["map"] += 1
                 self.s.features["map_key_" + kt] += 1
                 self.s.features["map_value_" + tag] += 1
